@@ -52,6 +52,12 @@ func smallGroups(r *vlib.Run) map[string]func() {
 		}
 		for n := range types {
 			r.Sample(vlib.CheckAlias(r, g, &vlib.AliasSpec{Prefix: "alias/" + name + "/extensions." + n, Values: samples[n], Others: others, Skip: map[string]bool{"Sqrt": true}}))
+			// Sqrt is only defined on squares: its own menu of squares and fourth powers
+			if _, ok := reflect.TypeOf(samples[n][0]).MethodByName("Sqrt"); ok {
+				if sq := vlib.SquareSamples(samples[n]); sq != nil {
+					r.Sample(vlib.CheckAlias(r, g, &vlib.AliasSpec{Prefix: "alias/" + name + "/extensions." + n + "(squares)", Values: sq, Others: others, Only: map[string]bool{"Sqrt": true}}))
+				}
+			}
 		}
 	}
 	m["ext/koalabear"] = func() {
